@@ -215,8 +215,22 @@ fn explore_types(ctx: &'static Ctx, prop: &'static str, oracle: Oracle) {
 /// decode, compare with the constructed value
 fn constructed(ctx: &'static Ctx) {
     use ctap_types::ctap2::*;
-    let kinds: [(&str, Ty); 3] = [("getInfo.Response", get_info_response_roundtrip()), ("clientPin.Response", cp_response()), ("largeBlobs.Response", lb_response())];
+    let kinds: Vec<(&str, Ty)> = vec![
+        ("getInfo.Response", get_info_response_roundtrip()),
+        ("clientPin.Response", cp_response()),
+        ("largeBlobs.Response", lb_response()),
+        ("getInfo.CtapOptions", ctap_options()),
+        ("makeCredential.Extensions", mc_extensions()),
+        ("getAssertion.ExtensionsOutput", ga_extensions_out()),
+        ("RpEntity", rp_entity(false)),
+        ("UserEntity", user_entity()),
+        ("Descriptor", descriptor_owned()),
+        ("FilteredParameters", Ty::Params),
+    ];
     for (name, ty) in kinds {
+        if matches!(ty, Ty::Params) {
+            // a bare list has no presence lattice: its menu values are covered by the deviation sweep below
+        }
         let plan = Arc::new(Plan::new(&ty, Side::Response));
         let full = plan.full_mask();
         let tops: u64 = plan.opts.iter().enumerate().filter(|(_, o)| o.parent.is_none()).map(|(i, _)| 1u64 << i).sum();
@@ -226,8 +240,7 @@ fn constructed(ctx: &'static Ctx) {
         let p1 = plan.clone();
         let p2 = plan.clone();
         let ty1 = ty.clone();
-        let check = move |mask: u64| -> Verdict {
-            let wire = p1.build(mask, &[]);
+        let check = move |wire: V| -> Verdict {
             let view = refmodel::decode(&ty1, &wire).unwrap().unwrap();
             let sig = |w: &str| format!("{}|{}|constructed|{}", P, name, w);
             let r = guard(|| {
@@ -253,7 +266,14 @@ fn constructed(ctx: &'static Ctx) {
                 match name {
                     "getInfo.Response" => go!(bind::build_get_info(&view), get_info::Response),
                     "clientPin.Response" => go!(bind::build_cp_response(&view), client_pin::Response),
-                    _ => go!(bind::build_lb_response(&view), large_blobs::Response),
+                    "largeBlobs.Response" => go!(bind::build_lb_response(&view), large_blobs::Response),
+                    "getInfo.CtapOptions" => go!(bind::build_ctap_options(&view), get_info::CtapOptions),
+                    "makeCredential.Extensions" => go!(bind::build_mc_ext(&view), make_credential::Extensions),
+                    "getAssertion.ExtensionsOutput" => go!(bind::build_ga_ext_out(&view), get_assertion::ExtensionsOutput),
+                    "RpEntity" => go!(bind::build_rp(&view), ctap_types::webauthn::PublicKeyCredentialRpEntity),
+                    "UserEntity" => go!(bind::build_user(&view), ctap_types::webauthn::PublicKeyCredentialUserEntity),
+                    "Descriptor" => go!(bind::build_descriptor(&view), ctap_types::webauthn::PublicKeyCredentialDescriptor),
+                    _ => go!(bind::build_known_params(&view), ctap_types::webauthn::FilteredPublicKeyCredentialParameters),
                 }
             });
             match r {
@@ -262,6 +282,32 @@ fn constructed(ctx: &'static Ctx) {
                 Err(p) => Verdict::fail(sig("panic"), "no panic", p),
             }
         };
+        let check = std::sync::Arc::new(check);
+        let check_l = check.clone();
+        let check_d = check.clone();
+        // every single menu value of every leaf, on the full value
+        {
+            let mut cases: Vec<(usize, usize)> = Vec::new();
+            for (l, info) in plan.leaves.iter().enumerate() {
+                for i in 1..info.menu.len() {
+                    cases.push((l, i));
+                }
+            }
+            if !cases.is_empty() {
+                let (p3, ty3) = (plan.clone(), ty.clone());
+                let cr = &cases;
+                sweep(ctx, &format!("{} constructed: single value deviations", name), cases.len() as u64, "the full value with one leaf moved to each other menu value, built through the public API, encoded, decoded, compared", |idx, l| {
+                    let (leaf, i) = cr[idx as usize];
+                    let wire = p3.build(p3.full_mask(), &[(leaf, i)]);
+                    l.nontrivial += 1;
+                    let _ = &ty3;
+                    let v = check_d(wire.clone());
+                    if !v.ok {
+                        l.fail(ctx, idx, v, || rt_case(name, &wire, json!({"constructed-deviation": [p3.leaves[leaf].path, i]})));
+                    }
+                });
+            }
+        }
         explore(
             ctx,
             Lattice {
@@ -270,7 +316,7 @@ fn constructed(ctx: &'static Ctx) {
                 base: full,
                 radius,
                 name: format!("{} constructed through the public API", name),
-                check: Box::new(check),
+                check: Box::new(move |m| check_l(p1.build(m, &[]))),
                 case: Box::new(move |mask| rt_case(name, &p2.build(mask, &[]), json!({"constructed": true, "mask": p2.describe_mask(mask)}))),
             },
             Some(expect),
